@@ -232,29 +232,31 @@ type Worker struct {
 }
 
 type Run struct {
-	cfg         *Config
-	w           *Worker
-	i           *interpreter
-	prefix      []Decision
-	pos         int
-	taken       []Decision // decisions of this run (prefix + new)
-	newPref     [][]Decision
-	inputs      []InputRec
-	observes    []obsRec
-	asserts     map[string]int
-	covers      map[string]int
-	instrs      map[*ssa.Function]int64
-	intrins     map[string]int
-	pcLen       int
-	forks       int
-	seq         int
-	knownHit    string
-	cutBy       string
-	pendingViol *Violation
-	wantModel   bool
-	overApprox  int
-	mapOrderSym bool
-	naux        int
+	cfg          *Config
+	w            *Worker
+	i            *interpreter
+	prefix       []Decision
+	pos          int
+	taken        []Decision // decisions of this run (prefix + new)
+	newPref      [][]Decision
+	inputs       []InputRec
+	observes     []obsRec
+	asserts      map[string]int
+	covers       map[string]int
+	instrs       map[*ssa.Function]int64
+	intrins      map[string]int
+	pcLen        int
+	forks        int
+	seq          int
+	knownHit     string
+	cutBy        string
+	pendingViol  *Violation
+	wantModel    bool
+	overApprox   int
+	floatTextCut int
+	mapOrderSym  bool
+	decided      map[int]bool
+	naux         int
 }
 
 func (r *Run) freshAux(name string, s Sort) *Term {
@@ -315,7 +317,7 @@ func (w *Worker) newInterp(r *Run) *interpreter {
 // runPath executes harness function fn along the given decision prefix.
 func (w *Worker) runPath(fn *ssa.Function, prefix []Decision) (res *PathResult, run *Run) {
 	r := &Run{cfg: w.cfg, w: w, prefix: prefix, wantModel: w.wantModel, mapOrderSym: w.cfg.MapOrderSym, asserts: map[string]int{}, covers: map[string]int{},
-		instrs: map[*ssa.Function]int64{}, intrins: map[string]int{}}
+		instrs: map[*ssa.Function]int64{}, intrins: map[string]int{}, decided: map[int]bool{}}
 	run = r
 	res = &PathResult{}
 	i := w.newInterp(r)
@@ -439,6 +441,20 @@ func (i *interpreter) decide(cond *Term, what string) bool {
 	r := i.run
 	s := r.w.solver
 	tt := i.tt
+	// a condition already decided on this path is implied by the path condition
+	if v, ok := r.decided[cond.ID]; ok {
+		return v
+	}
+	if cond.Op == OBNot {
+		if v, ok := r.decided[cond.Args[0].ID]; ok {
+			return !v
+		}
+	}
+	defer func() {
+		if n := len(r.taken); n > 0 {
+			r.decided[cond.ID] = r.taken[n-1].Taken
+		}
+	}()
 	if r.pos < len(r.prefix) {
 		d := r.prefix[r.pos]
 		r.pos++
@@ -529,6 +545,7 @@ func (i *interpreter) concretizeTerm(t *Term, what string) uint64 {
 			continue
 		}
 		r.pos++
+		r.intrins["concretize@"+i.whereAmI()]++
 		v, m := s.CheckWithModel(tt.Bool(true), []*Term{t})
 		if v != Sat {
 			panic(unsupported("concretize: solver " + v.String() + " at " + what))
